@@ -96,12 +96,15 @@ harnesses! {
     fn c12_q_and_0_4_n1 [10] { bitop!(0, 4, 1, false) }
     fn c12_q_contains_15_1_1_1 [10] { contains!(15, 1, 1, 1, 0) }
     fn c12_q_contains_owned_1_1_9_1 [10] { contains!(1, 1, 9, 1, 1) }
-    fn c12_t_or_0_4_n2 [10] { bitop!(0, 4, 2, true) }
+    // c12_x_*: written and compile-checked but in no tier - each needs 20-40 GB and 20-60 minutes
+    // (per-bit remainder loop of bitvec's op-assign on heap bit-vectors); `c12_t_and_15_1_n2` is the one
+    // two-symbol borrowed case kept in the thorough tier (measured: 2208 s incl. calibration, 29.8 GB)
+    fn c12_x_or_0_4_n2 [10] { bitop!(0, 4, 2, true) }
     fn c12_t_and_15_1_n2 [10] { bitop!(15, 1, 2, false) }
-    fn c12_t_or_15_7_n3 [10] { bitop!(15, 7, 3, true) }
-    fn c12_t_and_0_15_n3 [10] { bitop!(0, 15, 3, false) }
-    fn c12_t_or_1_1_n3 [10] { bitop!(1, 1, 3, true) }
-    fn c12_t_and_14_3_n4 [10] { bitop!(14, 3, 4, false) }
+    fn c12_x_or_15_7_n3 [10] { bitop!(15, 7, 3, true) }
+    fn c12_x_and_0_15_n3 [10] { bitop!(0, 15, 3, false) }
+    fn c12_x_or_1_1_n3 [10] { bitop!(1, 1, 3, true) }
+    fn c12_x_and_14_3_n4 [10] { bitop!(14, 3, 4, false) }
     fn c12_t_empty_ops [10] {
         let w = any_words::<2>();
         let s = arr::<Iupac, 32, 2>(w);
@@ -113,11 +116,11 @@ harnesses! {
     fn c12_q_owned_or_1_9_n2 [10] { owned_bitop!(1, 9, 2, true) }
     fn c12_q_owned_and_15_0_n2 [10] { owned_bitop!(15, 0, 2, false) }
 
-    fn c12_t_contains_0_2_5_2 [10] { contains!(0, 2, 5, 2, 0) }
-    fn c12_t_contains_15_2_1_2 [10] { contains!(15, 2, 1, 2, 0) }
+    fn c12_x_contains_0_2_5_2 [10] { contains!(0, 2, 5, 2, 0) }
+    fn c12_x_contains_15_2_1_2 [10] { contains!(15, 2, 1, 2, 0) }
     fn c12_q_contains_len_mismatch [10] { contains!(0, 2, 5, 3, 0) }
-    fn c12_t_contains_owned_1_2_9_2 [10] { contains!(1, 2, 9, 2, 1) }
-    fn c12_t_contains_3_3_14_3 [10] { contains!(3, 3, 14, 3, 0) }
+    fn c12_x_contains_owned_1_2_9_2 [10] { contains!(1, 2, 9, 2, 1) }
+    fn c12_x_contains_3_3_14_3 [10] { contains!(3, 3, 14, 3, 0) }
     fn c12_t_contains_len_mismatch_shorter [10] { contains!(4, 3, 9, 2, 0) }
-    fn c12_t_contains_owned_15_3_0_3 [10] { contains!(15, 3, 0, 3, 1) }
+    fn c12_x_contains_owned_15_3_0_3 [10] { contains!(15, 3, 0, 3, 1) }
 }
